@@ -740,6 +740,17 @@ pub fn c05(ctx: Arc<Ctx>) {
 				("3/1e2/2".into(), None, false, false),
 				("3/1.5/2".into(), None, false, false),
 				("3/%31/2".into(), None, false, true),
+				// parts that start like the stored coordinate 3/1/2 but are not numbers, and surplus parts
+				("3/1/2abc".into(), None, false, true),
+				("3/1/2e1".into(), None, false, true),
+				("3/1/2 ".into(), None, false, true),
+				("3/1/2%zz".into(), None, false, true),
+				("+3/1/2".into(), None, false, true),
+				("3/+1/2".into(), None, false, true),
+				("3/1/+2".into(), None, false, true),
+				("03x/1/2".into(), None, false, true),
+				("3/1/2/7/7".into(), None, false, true),
+				("3/1/2/x".into(), None, false, true),
 			];
 			for (c, expect, numeric, either) in &coords {
 				for ext in ["", ".png", ".pbf", ".x"] {
